@@ -96,7 +96,7 @@ CHECKS = {
         "groups": [
             {"name": "c08", "run": "^TestC08_", "shards": {"quick": 8, "thorough": 16},
              "timeout": {"quick": 900, "thorough": 3000},
-             "checks": ["c08-adapter-history"]},
+             "checks": ["c08-adapter-history", "c08-recovery-e2e"]},
         ],
     },
     "C01": {
